@@ -10,7 +10,8 @@ PROPERTY = 'C08'
 LEVEL = 'exploration'
 RULE = (
     'condition expression trees of depth <= 4 over 3 flags, 2 tracked integers (all six '
-    'comparisons, value and tracked right-hand sides), task.done / ~done, time atoms (>=, <, '
+    'comparisons, value and tracked right-hand sides), a tracked frozenset (ordered by inclusion) '
+    'and a tracked float that can be NaN, task.done / ~done, time atoms (>=, <, '
     '==), single- and multi-field resource-level comparisons, built with &, |, ~ (also ~~ and '
     'De Morgan forms); a driver performs 1-12 changes including several changes inside one '
     'time step that revert; 1-5 waiters per expression (same object and freshly built equal '
@@ -47,7 +48,14 @@ def make_case(seed, index, tier):
 
 def gen_atom(rng, tasks):
     kind = rng.choice(['flag', 'flag', 'flag', 'tracked', 'tracked', 'tracked', 'done', 'ge', 'lt',
-                       'eq', 'levels', 'levels', 'instant', 'eternity'])
+                       'eq', 'levels', 'levels', 'instant', 'eternity', 'partial', 'partial'])
+    if kind == 'partial':
+        # tracked values that are only partially ordered: sets (by inclusion) and NaN
+        if rng.random() < 0.6:
+            return {'k': 'tracked', 'i': 2, 'cmp': rng.choice(['lt', 'le', 'eq', 'ne', 'ge', 'gt']),
+                    'v': {'set': sorted(rng.sample([1, 2, 3], rng.randint(0, 3)))}}
+        return {'k': 'tracked', 'i': 3, 'cmp': rng.choice(['lt', 'le', 'eq', 'ne', 'ge', 'gt']),
+                'v': rng.choice([0, 1, 1.5])}
     if kind == 'flag':
         return {'k': 'flag', 'f': rng.randrange(3), 'neg': rng.random() < 0.3}
     if kind == 'tracked':
@@ -110,7 +118,7 @@ class Ids:
 def build(case):
     rng = random.Random('%s/%s/c08' % (case['seed'], case['index']))
     ids = Ids()
-    objects = {'flags': 3, 'tracked': [0, 1],
+    objects = {'flags': 3, 'tracked': [0, 1, {'set': [1]}, 1.0],
                'resources': [{'kind': 'resources', 'levels': {'a': 2, 'b': 1}}]}
     n_tasks = rng.choice([0, 0, 1, 2])
     tasks = ['T%d' % index for index in range(n_tasks)]
@@ -142,6 +150,13 @@ def gen_driver(rng, ids):
             if roll < 0.45:
                 driver.append({'op': 'setflag', 'f': rng.randrange(3), 'v': rng.random() < 0.6,
                                'id': ids('d')})
+            elif roll < 0.55:
+                if rng.random() < 0.6:
+                    driver.append({'op': 'settracked', 'i': 2, 'id': ids('d'),
+                                   'v': {'set': sorted(rng.sample([1, 2, 3], rng.randint(0, 3)))}})
+                else:
+                    driver.append({'op': 'settracked', 'i': 3, 'id': ids('d'),
+                                   'v': rng.choice([0, 1, 1.5, 'nan', 'nan'])})
             elif roll < 0.8:
                 if rng.random() < 0.5:
                     driver.append({'op': 'settracked', 'i': rng.randrange(2),
